@@ -131,7 +131,11 @@ def drive(
     )
     @given(strategy)
     def _t(case):
+        t_case = time.time()
         fails = body(case, res) or []
+        dt = time.time() - t_case
+        if dt > 10:
+            res.extra.setdefault("slow_cases", []).append({"seconds": round(dt, 1), "case": encode(case)})
         if only_bucket is None:
             for b, d in fails:
                 res.fail(b, encode(case), d)
